@@ -23,6 +23,28 @@ pub struct HexCase {
     pub eeprom: bool,
     /// length of the *other* image in the same BuildResult (both writers see both images)
     pub other_len: usize,
+    /// which capacities the result reports (they must not matter to the writers): 0 = the documented
+    /// defaults, 1 = all zero, 2 = all one, 3 = exactly the image lengths, n >= 4 = row (n - 4) of the device table
+    pub sizes: u16,
+}
+
+/// (flash words, eeprom bytes, ram bytes) reported by the result of a case.
+pub fn reported_sizes(c: &HexCase, code_len: usize, eeprom_len: usize) -> (u32, u32, u32) {
+    match c.sizes {
+        0 => (4194304, 65536, 8388608),
+        1 => (0, 0, 0),
+        2 => (1, 1, 1),
+        3 => (((code_len + 1) / 2) as u32, eeprom_len as u32, 0),
+        n => {
+            let mut names: Vec<&&str> = avra_lib::device::DEVICES.keys().collect();
+            names.sort();
+            if names.is_empty() {
+                return (4194304, 65536, 8388608);
+            }
+            let d = &avra_lib::device::DEVICES[*names[(n as usize - 4) % names.len()]];
+            (d.flash_size, d.eeprom_size, d.ram_size)
+        }
+    }
 }
 
 fn splitmix(x: &mut u64) -> u64 {
@@ -51,15 +73,10 @@ pub fn image(c: &HexCase) -> Vec<u8> {
 
 pub fn check_case(c: &HexCase, tag: usize) -> Result<(), (String, String)> {
     let img = image(c);
-    let br = BuildResult {
-        code: if c.eeprom { (0..c.other_len).map(|i| (i * 13 + 1) as u8).collect() } else { img.clone() },
-        eeprom: if c.eeprom { img.clone() } else { (0..c.other_len).map(|i| (i * 11 + 3) as u8).collect() },
-        flash_size: 4194304,
-        eeprom_size: 65536,
-        ram_size: 8388608,
-        ram_filling: 0,
-        messages: vec![],
-    };
+    let code: Vec<u8> = if c.eeprom { (0..c.other_len).map(|i| (i * 13 + 1) as u8).collect() } else { img.clone() };
+    let eeprom: Vec<u8> = if c.eeprom { img.clone() } else { (0..c.other_len).map(|i| (i * 11 + 3) as u8).collect() };
+    let (flash_size, eeprom_size, ram_size) = reported_sizes(c, code.len(), eeprom.len());
+    let br = BuildResult { code, eeprom, flash_size, eeprom_size, ram_size, ram_filling: (tag % 5) as u32 * 13, messages: if tag % 7 == 0 { vec!["message: text".to_string()] } else { vec![] } };
     let path = scratch_dir().join(format!("c07-{}-{}.hex", rayon::current_thread_index().map(|i| i as i64).unwrap_or(-1), tag % 4));
     // the output path may already hold an older, longer file (a previous build): it must be replaced
     match tag % 3 {
@@ -111,20 +128,86 @@ fn size_class(len: usize) -> &'static str {
 }
 
 pub fn to_json(c: &HexCase) -> Value {
-    json!({"kind": "hex", "len": c.len, "fill": c.fill.to_string(), "eeprom": c.eeprom, "other_len": c.other_len, "note": "replay tries all three pre-existing-file variants (none, older longer hex file, garbage)"})
+    json!({"kind": "hex", "len": c.len, "fill": c.fill.to_string(), "eeprom": c.eeprom, "other_len": c.other_len, "sizes": c.sizes, "note": "replay tries all three pre-existing-file variants (none, older longer hex file, garbage)"})
 }
 
 pub fn replay(v: &Value) -> Option<Result<(), String>> {
+    if v.get("kind")?.as_str()? == "hexbuilt" {
+        return Some(match built_verdict(v.get("src")?.as_str()?, 0) {
+            None => Err("the program no longer builds".into()),
+            Some(Ok(_)) => Ok(()),
+            Some(Err((k, e))) => Err(format!("{}: {}", k, e)),
+        });
+    }
     if v.get("kind")?.as_str()? != "hex" {
         return None;
     }
-    let c = HexCase { len: v.get("len")?.as_u64()? as usize, fill: v.get("fill")?.as_str()?.parse().ok()?, eeprom: v.get("eeprom")?.as_bool()?, other_len: v.get("other_len").and_then(|x| x.as_u64()).unwrap_or(0) as usize };
+    let c = HexCase { len: v.get("len")?.as_u64()? as usize, fill: v.get("fill")?.as_str()?.parse().ok()?, eeprom: v.get("eeprom")?.as_bool()?, other_len: v.get("other_len").and_then(|x| x.as_u64()).unwrap_or(0) as usize, sizes: v.get("sizes").and_then(|x| x.as_u64()).unwrap_or(0) as u16 };
     for tag in 0..3 {
         if let Err((k, e)) = check_case(&c, tag) {
             return Some(Err(format!("{}: {} (pre-existing file variant {})", k, e, tag)));
         }
     }
     Some(Ok(()))
+}
+
+/// Half of the cases report the documented defaults, the others zero / one / the exact image lengths / a row of the device table.
+fn pick_sizes(rng: &mut impl RngCore) -> u16 {
+    let r = rng.next_u64();
+    match r % 8 {
+        0..=3 => 0,
+        4 => 1 + ((r >> 8) % 3) as u16,
+        _ => 4 + ((r >> 8) % 200) as u16,
+    }
+}
+
+/// End-to-end leg: programs for the devices with the largest flashes (and without a device) that
+/// place data just below, across and above each 64 KiB boundary of the flash are assembled by the
+/// tool; the file written from that very result must decode to the result's image.
+fn built_cases() -> Vec<(String, String)> {
+    let mut out = vec![];
+    let mut devs: Vec<(String, u32)> = avra_lib::device::DEVICES.iter().map(|(k, d)| (k.to_string(), d.flash_size)).filter(|(_, f)| *f > 32768).collect();
+    devs.sort();
+    devs.push((String::new(), 4194304));
+    for (name, words) in devs {
+        let mut b = 1u32;
+        while b * 32768 < words && b <= 40 {
+            for (k, back) in [(0u32, 3u32), (1, 0), (2, 40)] {
+                let at = b * 32768 - back;
+                if at + 12 >= words {
+                    continue;
+                }
+                let dev = if name.is_empty() { String::new() } else { format!(".device {}\n", name) };
+                let src = format!("{} ldi r16, {}\n.org {:#x}\n.dw 0x1234, 0xabcd, {}, 0xffff\n.db \"boundary\", {}\n nop\n", dev, b % 200, at, at % 65536, k);
+                out.push((if name.is_empty() { "no device".to_string() } else { name.clone() }, src));
+            }
+            b = if b < 4 { b + 1 } else { b * 2 };
+        }
+    }
+    out
+}
+
+fn built_verdict(src: &str, slot: usize) -> Option<Result<usize, (String, String)>> {
+    let br = match crate::run::build(src) {
+        crate::run::Outcome::Ok(br) => br,
+        _ => return None,
+    };
+    let path = scratch_dir().join(format!("c07-built-{}-{}.hex", rayon::current_thread_index().map(|i| i as i64).unwrap_or(-1), slot % 4));
+    let _ = std::fs::remove_file(&path);
+    let p2 = path.clone();
+    let br2 = br.clone();
+    let res = catch_unwind(AssertUnwindSafe(|| crate::run::guarded(|| write_code_hex(p2, &br2))));
+    let verdict: Result<usize, (String, String)> = match res {
+        Err(_) => Err(("panic".into(), "the writer panicked".into())),
+        Ok(Err(e)) => Err(("write-error".into(), format!("the writer returned an error: {}", e))),
+        Ok(Ok(())) => std::fs::read(&path).map_err(|e| ("io".to_string(), e.to_string())).and_then(|text| {
+            let d = ihex::parse(&text).map_err(|e| ("malformed".to_string(), e))?;
+            ihex::matches_image(&d, &br.code).map_err(|e| ("wrong-bytes".to_string(), e))?;
+            Ok(br.code.len())
+        }),
+    };
+    let _ = std::fs::remove_file(&path);
+    Some(verdict)
 }
 
 pub fn run(ctx: &Ctx) -> Result<Ev, String> {
@@ -138,12 +221,12 @@ pub fn run(ctx: &Ctx) -> Result<Ev, String> {
     let mut rng = par::rng_for(ctx.seed, "C07", 0);
     for len in 0..=small {
         for eeprom in [false, true] {
-            cases.push(HexCase { len, fill: 2 + rng.next_u64() % (u64::MAX - 2), eeprom, other_len: 0 });
+            cases.push(HexCase { len, fill: 2 + rng.next_u64() % (u64::MAX - 2), eeprom, other_len: 0, sizes: pick_sizes(&mut rng) });
         }
     }
     for len in [0usize, 1, 15, 16, 17, 31, 32, 33, 255, 256, 257] {
         for fill in [0u64, 1] {
-            cases.push(HexCase { len, fill, eeprom: false, other_len: 0 });
+            cases.push(HexCase { len, fill, eeprom: false, other_len: 0, sizes: pick_sizes(&mut rng) });
         }
     }
     let mut b = 1usize;
@@ -151,12 +234,12 @@ pub fn run(ctx: &Ctx) -> Result<Ev, String> {
         for d in -delta..=delta {
             let len = (b as i64 * 65536 + d) as usize;
             if len <= max_flash_bytes {
-                cases.push(HexCase { len, fill: 2 + rng.next_u64() % (u64::MAX - 2), eeprom: false, other_len: 0 });
+                cases.push(HexCase { len, fill: 2 + rng.next_u64() % (u64::MAX - 2), eeprom: false, other_len: 0, sizes: pick_sizes(&mut rng) });
                 if b == 1 {
                     // the EEPROM writer shares the generator; the largest EEPROM in the table is far below 64 KiB,
                     // but the documented default without a device is exactly 64 KiB
                     if len <= 65536 {
-                        cases.push(HexCase { len, fill: 2 + rng.next_u64() % (u64::MAX - 2), eeprom: true, other_len: 0 });
+                        cases.push(HexCase { len, fill: 2 + rng.next_u64() % (u64::MAX - 2), eeprom: true, other_len: 0, sizes: pick_sizes(&mut rng) });
                     }
                 }
             }
@@ -169,17 +252,17 @@ pub fn run(ctx: &Ctx) -> Result<Ev, String> {
             if eeprom && len > 65536 {
                 continue;
             }
-            cases.push(HexCase { len, fill: 2 + rng.next_u64() % (u64::MAX - 2), eeprom, other_len: other });
+            cases.push(HexCase { len, fill: 2 + rng.next_u64() % (u64::MAX - 2), eeprom, other_len: other, sizes: pick_sizes(&mut rng) });
         }
     }
     let nrand = if ctx.thorough { 2000 } else { 150 };
     for i in 0..nrand {
         let len = (rng.next_u64() % (max_flash_bytes as u64 + 1)) as usize;
-        cases.push(HexCase { len, fill: if i % 50 == 0 { 1 } else { 2 + rng.next_u64() % (u64::MAX - 2) }, eeprom: false, other_len: 0 });
+        cases.push(HexCase { len, fill: if i % 50 == 0 { 1 } else { 2 + rng.next_u64() % (u64::MAX - 2) }, eeprom: false, other_len: 0, sizes: pick_sizes(&mut rng) });
     }
     // the documented no-device flash capacity (8 MiB) needs addresses above 1 MiB
     for len in [(1usize << 20) - 1, 1 << 20, (1 << 20) + 1, (1 << 20) + 65536 + 5, 3 << 20, (8 << 20) - 3, 8 << 20] {
-        cases.push(HexCase { len, fill: 2 + rng.next_u64() % (u64::MAX - 2), eeprom: false, other_len: 0 });
+        cases.push(HexCase { len, fill: 2 + rng.next_u64() % (u64::MAX - 2), eeprom: false, other_len: 0, sizes: pick_sizes(&mut rng) });
     }
     let parts: Vec<Ev> = cases
         .par_iter()
@@ -204,6 +287,17 @@ pub fn run(ctx: &Ctx) -> Result<Ev, String> {
     let mut total = Ev::new("C07");
     for p in parts {
         total.merge(p);
+    }
+    for (i, (dev, src)) in built_cases().into_iter().enumerate() {
+        total.eval();
+        total.class("assembled-image-across-a-64KiB-boundary");
+        total.nt(fp(&src));
+        match built_verdict(&src, i) {
+            // whether such a program builds is the subject of C02 and C12
+            None => total.class("assembled-image:not-built"),
+            Some(Ok(_)) => {}
+            Some(Err((kind, why))) => total.violation(Violation { sig: format!("c07:assembled:{}", kind), what: format!("{} / `{}`: {}", dev, src.replace('\n', " | "), why), replay: json!({"kind": "hexbuilt", "src": src}) }),
+        }
     }
     total.extra.insert("largest_flash_bytes_in_device_table".into(), json!(max_flash_bytes));
     Ok(total)
